@@ -136,8 +136,10 @@ func (res *relayEntrySubmitter) waitForSubmissionEligibility(
 		big.NewInt(int64(groupSize)),
 	).Uint64()
 
+	// Member indexes are 1-based while the submission queue operates on
+	// 0-based indexes from range [0, groupSize-1].
 	submissionQueueIndex := calculateSubmissionQueueIndex(
-		uint64(res.index),
+		uint64(res.index)-1,
 		firstSubmitterMemberIndex,
 		uint64(groupSize),
 	)
